@@ -48,7 +48,7 @@ func Break(r *core.Rand, toks []Tok) (out []Tok, edit string, ok bool) {
 		return nil, "", false
 	}
 	for tries := 0; tries < 20; tries++ {
-		switch r.Intn(6) {
+		switch r.Intn(7) {
 		case 0: // unmatched closer
 			b := r.Pick(")", "]", "}")
 			return insertAt(toks, free[r.Intn(len(free))], Tok{S: b}), "insert-unmatched-" + b, true
@@ -80,6 +80,13 @@ func Break(r *core.Rand, toks []Tok) (out []Tok, edit string, ok bool) {
 			}
 			i := ops[r.Intn(len(ops))]
 			return append([]Tok{}, toks[:i+1]...), "truncate-after-" + lower(toks[i].S), true
+		case 5: // a stray quote at the very end of the code opens a string that is never closed
+			last := toks[len(toks)-1]
+			if last.Gap == GapNone || last.Str || last.S == "" {
+				continue
+			}
+			q := r.Pick("'", "\"", "`")
+			return append(append([]Tok{}, toks...), Tok{S: q}), "append-stray-quote-" + q, true
 		default: // two adjacent binary operators
 			return insertAt(toks, free[r.Intn(len(free))], Tok{S: "*"}, Tok{S: "/"}), "insert-operator-pair", true
 		}
